@@ -160,7 +160,7 @@ structure Bal (s : Sys) : Prop where
   fa : Funded s.a
   fb : Funded s.b
 
-theorem Bal.init (va vb : Nat) : Bal (Sys.init va vb) :=
+theorem Bal.init (va vb f0 : Nat) : Bal (Sys.init va vb f0) :=
   ⟨rfl, Nat.zero_le _, Nat.zero_le _⟩
 
 theorem Bal.swap {s : Sys} (h : Bal s) : Bal s.swap := by
@@ -236,6 +236,10 @@ theorem onMsg_nonraa {n n' : Node} {total : Nat} {m : Msg} {ok : Bool} (hok : No
     obtain ⟨e, _⟩ := onMsg_cs h
     subst e
     exact ⟨rfl, rfl, _, rfl, fun _ => ⟨rfl, rfl⟩, fun x _ hl => live_onCS x.st hl⟩
+  | fee f =>
+    obtain ⟨_, _, e⟩ := onMsg_fee h
+    subst e
+    exact ⟨rfl, rfl, fun x => x, by simp, fun _ => ⟨rfl, rfl⟩, fun _ _ hh => hh⟩
 
 theorem Bal.commit_true {s s' : Sys} {adds fu fa : List Nat} (hbal : Bal s) (hg : GoodA s) (hg' : GoodA s.swap)
     (hb : Base s) (hb' : Base s.swap) (h : stepG s (.commit true adds fu fa) = some s') : Bal s' := by
@@ -482,6 +486,7 @@ def trueSide : Ev → Prop
   | .recv y => y = true
   | .disconnect => True
   | .reest y => y = true
+  | .fee x _ => x = true
 
 theorem Bal.step_true {s s' : Sys} {e : Ev} (hbal : Bal s) (hg : GoodA s) (hg' : GoodA s.swap)
     (hb : Base s) (hb' : Base s.swap) (hamt' : Amt s.swap) (h : stepG s e = some s') (he : trueSide e) :
@@ -528,6 +533,12 @@ theorem Bal.step_true {s s' : Sys} {e : Ev} (hbal : Bal s) (hg : GoodA s) (hg' :
     exact hbal.quiet hg hg' hb hb' h (fun x => x) (fun _ => ⟨rfl, rfl⟩) (fun _ _ hh => hh)
       (fun x => x) (fun _ => ⟨rfl, rfl⟩) (fun _ _ hh => hh) (by rw [e, en]; exact idm _) (by rw [e]; exact idm _)
       (by rw [e, en]) (by rw [e]) (by rw [e, en]) (by rw [e]) (by rw [e])
+  | fee x f =>
+    simp only [trueSide] at he; subst he
+    obtain ⟨_, _, _, _, _, e⟩ := step_fee_true h0
+    exact hbal.quiet hg hg' hb hb' h (fun x => x) (fun _ => ⟨rfl, rfl⟩) (fun _ _ hh => hh)
+      (fun x => x) (fun _ => ⟨rfl, rfl⟩) (fun _ _ hh => hh) (by rw [e]; exact idm _) (by rw [e]; exact idm _)
+      (by rw [e]) (by rw [e]) (by rw [e]) (by rw [e]) (by rw [e])
 
 theorem Bal.step {s s' : Sys} {e : Ev} (hbal : Bal s) (hg : GoodA s) (hg' : GoodA s.swap)
     (hb : Base s) (hb' : Base s.swap) (hamt : Amt s) (hamt' : Amt s.swap) (h : stepG s e = some s') : Bal s' := by
@@ -555,6 +566,10 @@ theorem Bal.step {s s' : Sys} {e : Ev} (hbal : Bal s) (hg : GoodA s) (hg' : Good
   | disconnect => exact hbal.step_true hg hg' hb hb' hamt' h trivial
   | reest y =>
     cases y
+    · exact viaSwap rfl
+    · exact hbal.step_true hg hg' hb hb' hamt' h rfl
+  | fee x f =>
+    cases x
     · exact viaSwap rfl
     · exact hbal.step_true hg hg' hb hb' hamt' h rfl
 
